@@ -1,0 +1,14 @@
+//go:build verif
+
+package version
+
+// Contracts for govc (comment-only; compiled only with -tags verif).
+
+//@ func ParseMagicBytes
+//@   props C05 C10
+//@   returns (v, err)
+//@   requires r != nil
+//@   ensures spos(r) >= old(spos(r)) && spos(r) <= send(r)
+//@   ensures err == nil ==> spos(r) == old(spos(r)) + 15
+//@   ensures err == nil ==> v == VersionB1 || v == VersionB2
+//@   assigns spos(r)
